@@ -54,13 +54,13 @@ Proof.
       rewrite ?E1, ?E2. unfold dec_rdata. rewrite HS, A, ED. cbn [bind fst snd rev app]. rewrite Nat.eqb_refl. cbn [bind].
       rewrite ?E1, ?E2. destruct (Z.gtb_spec (d_ttl d) 2147483647); [lia|].
       change (p_xfr po0) with false. cbn [andb orb]. unfold find_add, rd_covers.
-      destruct (d_ty d =? tRRSIG); reflexivity.
+      destruct (is_sigtype (d_ty d)); reflexivity.
   - destruct G3 as (HS & Httl). rewrite Nat2Z.id.
     destruct (Nat.ltb_spec (length (w ++ ext) - (c1 + 10)) rdl); [rewrite app_length in *; lia|].
     rewrite ?E1, ?E2. unfold dec_rdata. rewrite HS, A, ED. cbn [bind fst snd rev app]. rewrite Nat.eqb_refl. cbn [bind].
     rewrite ?E1, ?E2. destruct (Z.gtb_spec (d_ttl d) 2147483647); [lia|].
     change (p_xfr po0) with false. cbn [andb orb]. unfold find_add, rd_covers.
-    destruct (d_ty d =? tRRSIG); reflexivity.
+    destruct (is_sigtype (d_ty d)); reflexivity.
 Qed.
 
 Lemma apply_u_mq sec m d : 1 <= sec <= 3 -> mq (apply_u sec m d) = mq m.
